@@ -312,14 +312,14 @@ func runC08(c *Ctx) {
 		}
 		// the converse: input goes on to be hashed and stored only if it failed to parse or is not short — every
 		// parseable short input (canonical or not) is left alone
-		parseFail := PassEdges(ctt, func(cond ssa.Value) (bool, bool) {
-			e, trueMeansNil, ok := IsErrNilCheck(cond)
-			if ok && ResultOfCall(e, dec, 2) {
+		// one matcher for both tests, so that `already := decoded && short; if … || already` (a φ of the two) is
+		// understood: the branch is passed when the flag is false
+		nFail, nLong := 0, 0
+		notPointer := PassEdges(ctt, func(cond ssa.Value) (bool, bool) {
+			if e, trueMeansNil, ok := IsErrNilCheck(cond); ok && ResultOfCall(e, dec, 2) {
+				nFail++
 				return !trueMeansNil, true
 			}
-			return false, false
-		})
-		long := PassEdges(ctt, func(cond ssa.Value) (bool, bool) {
 			op, x, y, ok := BinCmp(cond)
 			if !ok {
 				return false, false
@@ -334,15 +334,17 @@ func runC08(c *Ctx) {
 			}
 			switch op {
 			case token.LSS:
+				nLong++
 				return false, true
 			case token.GEQ:
+				nLong++
 				return true, true
 			}
 			return false, false
 		})
 		for _, ci := range CallsIn(ctt, "tools.CopyWithCallback", "io.Copy") {
-			okc, pc := Guarded(ctt.Blocks[0], ci, append(append([]Edge{}, parseFail...), long...), nil)
-			c.Check(okc && len(parseFail) > 0 && len(long) > 0, "R4", "content-verdict:only-unparseable-or-long", p.InstrPos(ci), "input is stored as content only if it did not parse as a pointer or is not short",
+			okc, pc := Guarded(ctt.Blocks[0], ci, notPointer, nil)
+			c.Check(okc && nFail > 0 && nLong > 0 && nonVacuous(notPointer), "R4", "content-verdict:only-unparseable-or-long", p.InstrPos(ci), "input is stored as content only if it did not parse as a pointer or is not short",
 				"short input that parsed as a pointer can still be hashed and stored as content (an extra condition on the pointer, e.g. being canonical): a non-canonical pointer is wrapped into a pointer to a pointer: "+pc)
 		}
 	}
